@@ -498,6 +498,8 @@ def build_class(spec: ClassM, base=None, extra_ns=None):
         for key in ('aliases', 'in_names', 'rename', 'out_name'):
             if getattr(f, key) is not None:
                 kwargs[key] = getattr(f, key)
+                if isinstance(kwargs[key], tuple) and key in ('aliases', 'in_names') and (len(f.name) + len(spec.name)) % 2 == 0:
+                    kwargs[key] = list(kwargs[key])     # any sequence of names is accepted
         if f.kw_only: kwargs['kw_only'] = True
         if not f.init: kwargs['init'] = False
         if f.exclude: kwargs['exclude'] = True
@@ -531,6 +533,8 @@ def build_class(spec: ClassM, base=None, extra_ns=None):
     if extra_ns:
         ns.update(extra_ns)
     opts = dict(spec.opts)
+    if isinstance(opts.get('in_format'), tuple) and sum(map(ord, spec.name)) % 3 == 0:
+        opts['in_format'] = list(opts['in_format'])      # the documentation writes the layouts as a list as often as a tuple
     cls = type(spec.name, (base or env.PaneBase,), ns, **opts)
     cls._pv_spec = spec
     cls._pv_post_init_log = log
